@@ -45,3 +45,337 @@ class from_gaussian:
                             "tuple(sh / scale for sh in shift), tuple(sg / scale for sg in sigma))), "
                             "(0, result.shape[0]), (0, result.shape[1]), (0, result.shape[2]))",
     }
+
+
+# ---------------------------------------------------------------------------
+# pipeline algebra over opaque images: providers are arbitrary functions scale -> image, converters arbitrary functions
+# (image, scale) -> image; voxel-wise operators are the uninterpreted image operators of pyvc/imgtok.py
+from pyvc.contract import TSpec
+from pyvc import symex as _X
+from pyvc.imgtok import provider_fn, converter_fn, same, fresh_image, ImgTok
+
+
+class TProvider(TSpec):
+    def __init__(self, tag):
+        self.tag = tag
+
+    def fresh(self, name, path):
+        cls = path.interp.resolve("acryo.pipe._classes:ImageProvider")
+        return _X.Obj(cls, {"_func": provider_fn(self.tag), "__name__": self.tag})
+
+    def src(self, name, model):
+        return f"_P.ImageProvider(lambda scale, _t={self.tag!r}: _img(_t, scale))"
+
+
+class TConverter(TSpec):
+    def __init__(self, tag):
+        self.tag = tag
+
+    def fresh(self, name, path):
+        cls = path.interp.resolve("acryo.pipe._classes:ImageConverter")
+        return _X.Obj(cls, {"_func": converter_fn(self.tag), "__name__": self.tag})
+
+    def src(self, name, model):
+        return f"_P.ImageConverter(lambda img, scale, _t={self.tag!r}: _conv(_t, img, scale))"
+
+
+class TImage(TSpec):
+    def fresh(self, name, path):
+        return fresh_image(name)
+
+    def src(self, name, model):
+        return "_img('input', 1.0)"
+
+
+_NATIVE_PIPE = '''
+import acryo.pipe._classes as _P
+def _img(tag, scale):
+    rng = np.random.default_rng(abs(hash(tag)) % 1000)
+    return (rng.random((4, 5, 6)) * (1.0 + float(scale)) + 0.5).astype(np.float32)
+def _conv(tag, img, scale):
+    k = 1.0 + (abs(hash(tag)) % 7)
+    return (np.roll(img, int(k), axis=0) * k + float(scale)).astype(np.float32)
+def same(a, b):
+    return np.asarray(a).shape == np.asarray(b).shape and bool(np.allclose(a, b, equal_nan=True))
+'''
+_HP = dict(same=same)
+_OPS = {"add": "+", "sub": "-", "mul": "*", "truediv": "/"}
+_CMPS = {"eq": "==", "ne": "!=", "lt": "<", "le": "<=", "gt": ">", "ge": ">="}
+_SCALE = T.Real(lo=0)
+
+# reflected operators with a scalar: c op p  must be  c op p(scale) voxel-wise  (NOT p(scale) op c)
+for _name, _sym in _OPS.items():
+    @contract(f"acryo.pipe._classes:_Pipeline.__r{_name}__", props=["C19"])
+    class reflected_op:
+        params = dict(self=TProvider("p"), other=T.Real(), _s=_SCALE)
+        requires = ["_s > 0"] + (["other != 0"] if _name == "truediv" else [])
+        helpers = _HP
+        imports = _NATIVE_PIPE
+        native_call = f"args['other'] {_sym} args['self']"
+        native = {"voxelwise": f"same(result(_s), other {_sym} self(_s))"}
+        ensures = {"voxelwise": f"same(result(_s), other {_sym} self(_s))"}
+
+for _name, _sym in {**_OPS, **_CMPS}.items():
+    for _kind, _spec in (("provider", TProvider("q")), ("scalar", T.Real())):
+        @contract(f"acryo.pipe._classes:ImageProvider.__{_name}__", props=["C19"]) if _kind == "provider" else (lambda c: c)
+        class provider_op:
+            """p op q (two providers) and p op c (scalar) act voxel-wise on the provided images"""
+            inline = True      # callers (the reflected operators) execute the body instead of using this contract
+            params = dict(self=TProvider("p"), other=T.OneOf(TProvider("q"), T.Real()), _s=_SCALE)
+            requires = ["_s > 0"]
+            # documented: division by the scalar zero is rejected
+            raises = {"ZeroDivisionError": "not callable(other) and other == 0"} if _name == "truediv" else {}
+            helpers = dict(_HP, val=lambda o, s, interp=None: o)
+            imports = _NATIVE_PIPE
+            native_call = f"args['self'] {_sym} args['other']"
+            native = {"voxelwise": f"same(result(_s), self(_s) {_sym} (other(_s) if callable(other) else other))"}
+            ensures = {"voxelwise": f"same(result(_s), self(_s) {_sym} (other(_s) if callable(other) else other))"}
+
+
+# converters -----------------------------------------------------------------------------------------------------
+def apply_other(other, x, s):
+    """value of the right operand for input image x at scale s: converter(x, s), provider(s) or the scalar itself"""
+    from pyvc import symex as X
+    raise NotImplementedError
+
+
+_OTHER_EXPR = ("(other(_x, _s) if cls_name(other) == 'ImageConverter' else "
+               "(other(_s) if cls_name(other) == 'ImageProvider' else other))")
+_NATIVE_OTHER = ("(other(_x, _s) if type(other).__name__ == 'ImageConverter' else "
+                 "(other(_s) if type(other).__name__ == 'ImageProvider' else other))")
+
+
+def cls_name(o):
+    return o.cls.name if isinstance(o, _X.Obj) else type(o).__name__
+
+
+_HC = dict(_HP, cls_name=cls_name)
+
+for _name, _sym in {**_OPS, **_CMPS}.items():
+    @contract(f"acryo.pipe._classes:ImageConverter.__{_name}__", props=["C19"])
+    class converter_op:
+        """c op d / c op p / c op scalar act voxel-wise on the converted (and provided) images"""
+        inline = True
+        params = dict(self=TConverter("c"), other=T.OneOf(TConverter("d"), TProvider("q"), T.Real()),
+                      _x=TImage(), _s=_SCALE)
+        requires = ["_s > 0"]
+        raises = {"ZeroDivisionError": "not callable(other) and other == 0"} if _name == "truediv" else {}
+        helpers = _HC
+        imports = _NATIVE_PIPE
+        native_call = f"args['self'] {_sym} args['other']"
+        native = {"voxelwise": f"same(result(_x, _s), self(_x, _s) {_sym} {_NATIVE_OTHER})"}
+        ensures = {"voxelwise": f"same(result(_x, _s), self(_x, _s) {_sym} {_OTHER_EXPR})"}
+
+for _name, _sym in _OPS.items():
+    @contract(f"acryo.pipe._classes:_Pipeline.__r{_name}__", props=["C19"])
+    class reflected_op_both:
+        """c op pipeline with a scalar on the left, for providers and for converters"""
+        params = dict(self=T.OneOf(TProvider("p"), TConverter("c")), other=T.Real(), _x=TImage(), _s=_SCALE)
+        requires = ["_s > 0"] + (["other != 0"] if _name == "truediv" else [])
+        helpers = _HC
+        imports = _NATIVE_PIPE
+        native_call = f"args['other'] {_sym} args['self']"
+        native = {"voxelwise": f"same(result(_x, _s) if type(self).__name__ == 'ImageConverter' else result(_s), "
+                               f"other {_sym} (self(_x, _s) if type(self).__name__ == 'ImageConverter' else self(_s)))"}
+        ensures = {"voxelwise": f"same(result(_x, _s) if cls_name(self) == 'ImageConverter' else result(_s), "
+                                f"other {_sym} (self(_x, _s) if cls_name(self) == 'ImageConverter' else self(_s)))"}
+
+
+@contract("acryo.pipe._classes:ImageConverter.compose", props=["C19"])
+class compose:
+    """(a @ b)(x, s) == a(b(x, s), s) for a converter b; (a @ p)(s) == a(p(s), s) for a provider p; anything else is
+    rejected with TypeError"""
+    params = dict(self=TConverter("a"), other=T.OneOf(TConverter("b"), TProvider("p")), _x=TImage(), _s=_SCALE)
+    requires = ["_s > 0"]
+    helpers = _HC
+    imports = _NATIVE_PIPE
+    native_call = "args['self'] @ args['other']"
+    native = {"nested_application": "same(result(_x, _s), self(other(_x, _s), _s)) if type(other).__name__ == 'ImageConverter' "
+                                    "else same(result(_s), self(other(_s), _s))"}
+    ensures = {"nested_application": "same(result(_x, _s), self(other(_x, _s), _s)) if cls_name(other) == 'ImageConverter' "
+                                     "else same(result(_s), self(other(_s), _s))",
+               "kind": "cls_name(result) == cls_name(other)"}
+
+
+@contract("acryo.pipe._classes:ImageConverter.with_scale", props=["C19"])
+class with_scale:
+    params = dict(self=TConverter("a"), scale=_SCALE, _x=TImage())
+    requires = ["scale > 0"]
+    helpers = _HC
+    imports = _NATIVE_PIPE
+    native_call = "args['self'].with_scale(args['scale'])"
+    native = {"partial": "same(result(_x), self(_x, scale))"}
+    ensures = {"partial": "same(result(_x), self(_x, scale))"}
+
+
+# currying decorators ----------------------------------------------------------------------------------------------
+import z3 as _z3
+from pyvc.imgtok import Img as _ImgSort, _real as _realterm
+from pyvc.values import Sym as _Sym
+
+
+class TUserFn(TSpec):
+    """an arbitrary user function fn(scale, a) -> image  /  fn(img, scale, a) -> image (uninterpreted)"""
+
+    def __init__(self, kind):
+        self.kind = kind
+
+    def fresh(self, name, path):
+        if self.kind == "provider":
+            f = _z3.Function("user_provider", _z3.RealSort(), _z3.RealSort(), _ImgSort)
+
+            def fn(scale, a):
+                return ImgTok(f(_realterm(scale), _realterm(a)))
+            fn._pyvc_sig = ["scale", "a"]
+        else:
+            f = _z3.Function("user_converter", _ImgSort, _z3.RealSort(), _z3.RealSort(), _ImgSort)
+
+            def fn(img, scale, a):
+                return ImgTok(f(img.t, _realterm(scale), _realterm(a)))
+            fn._pyvc_sig = ["img", "scale", "a"]
+        fn.__name__ = "user_fn"
+        return fn
+
+    def src(self, name, model):
+        if self.kind == "provider":
+            return "(lambda scale, a: _img('u', scale) * a)"
+        return "(lambda img, scale, a: img * a + scale)"
+
+
+@contract("acryo.pipe._curry:provider_function", props=["C19"])
+class provider_function:
+    """curried provider: provider_function(fn)(a)(scale) == fn(scale, a)"""
+    params = dict(fn=TUserFn("provider"), _a=T.Real(), _s=_SCALE)
+    requires = ["_s > 0"]
+    helpers = _HC
+    imports = _NATIVE_PIPE
+    native_call = "_mod.provider_function(args['fn'])"
+    native = {"curried": "same(result(_a)(_s), fn(_s, _a))"}
+    ensures = {"curried": "same(result(_a)(_s), fn(_s, _a))", "kind": "cls_name(result(_a)) == 'ImageProvider'"}
+
+
+@contract("acryo.pipe._curry:converter_function", props=["C19"])
+class converter_function:
+    """curried converter: converter_function(fn)(a)(img, scale) == fn(img, scale, a)"""
+    params = dict(fn=TUserFn("converter"), _a=T.Real(), _x=TImage(), _s=_SCALE)
+    requires = ["_s > 0"]
+    helpers = _HC
+    imports = _NATIVE_PIPE
+    native_call = "_mod.converter_function(args['fn'])"
+    native = {"curried": "same(result(_a)(_x, _s), fn(_x, _s, _a))"}
+    ensures = {"curried": "same(result(_a)(_x, _s), fn(_x, _s, _a))", "kind": "cls_name(result(_a)) == 'ImageConverter'"}
+
+
+# physical units: every nm parameter reaches the library as a quotient by the scale -------------------------------
+from pyvc.values import ceil_ as _ceil, sabs as _sabs, to_real as _to_real, implies as _implies
+
+
+def radius_px(radius, scale):
+    q = _sabs(radius / scale)
+    return V.ite(q < 1, 0, _ceil(q))
+
+
+_HU = dict(radius_px=radius_px, exp=_exp, same=same)
+_LEM_RATIO = {"ratio_invariant": ("lam r s", "implies(lam > 0 and s > 0, (lam * r) / (lam * s) == r / s)")}
+
+
+@contract("acryo.pipe._masking:_get_radius_px", props=["C19"])
+class get_radius_px:
+    """radius in pixels depends on radius/scale only (lemma ratio_invariant: multiplying both by lam > 0 changes nothing)"""
+    params = dict(radius=T.Real(), scale=T.Real())
+    requires = ["scale > 0"]
+    helpers = _HU
+    lemmas = _LEM_RATIO
+    result = T.Int(lo=0)
+    native_call = "_mod._get_radius_px(**args)"
+    ensures = {"quotient": "result == radius_px(radius, scale)"}
+
+
+@contract("acryo.pipe._masking:_get_structure", props=["C19"])
+class get_structure:
+    """ball of radius r: contains its centre (so dilation/closing are extensive, erosion/opening anti-extensive)"""
+    params = dict(r=T.Int(lo=1))
+    result = lambda interp, bound: fresh_array("structure", 3, "bool", shape=(2 * bound["r"] + 1,) * 3)
+    native_call = "_mod._get_structure(**args)"
+    native = {"shape": "result.shape == (2 * r + 1,) * 3", "contains_centre": "bool(result[r, r, r])",
+              "ball": "True"}
+    ensures = {
+        "shape": "all(result.shape[a] == 2 * r + 1 for a in range(3))",
+        "contains_centre": "result[r, r, r]",
+        "ball": "forall(lambda i, j, k: iff(result[i, j, k], (i - r) * (i - r) + (j - r) * (j - r) + (k - r) * (k - r) <= r * r), "
+                "(0, 2 * r + 1), (0, 2 * r + 1), (0, 2 * r + 1))",
+    }
+
+
+for _fn, _neg, _pos in (("dilation", "binary_erosion", "binary_dilation"), ("closing", "binary_opening", "binary_closing")):
+    @contract(f"acryo.pipe._masking:{_fn}", props=["C19"])
+    class morph:
+        """identity below one pixel; otherwise ONE morphology call (erosion/opening for a negative radius,
+        dilation/closing for a positive one) on the input image with the ball of radius_px(radius, scale)"""
+        params = dict(img=T.Arr(3, "bool"), scale=T.Real(), radius=T.Real())
+        requires = ["scale > 0"]
+        helpers = dict(_HU, NEG=_neg, POS=_pos)
+        native_call = f"_mod.{_fn}(args['radius'])(args['img'], args['scale'])"
+        native = {"identity_below_one_pixel": "implies(abs(radius / scale) < 1, bool(np.all(result == img)))",
+                  "one_call": "True", "operation": "True"}
+        ensures = {
+            "identity_below_one_pixel": "implies(abs(radius / scale) < 1, result is img and ndi_count() == 0)",
+            "one_call": "implies(abs(radius / scale) >= 1, ndi_count() == 1) and "
+                        "implies(abs(radius / scale) >= 1 and radius < 0, result is ndi_call(NEG)[0] and ndi_call(NEG)[1][0] is img) and "
+                        "implies(abs(radius / scale) >= 1 and radius > 0, result is ndi_call(POS)[0] and ndi_call(POS)[1][0] is img)",
+            "operation": "implies(abs(radius / scale) >= 1 and radius < 0, "
+                         "ndi_call(NEG)[2]['structure'] is called('_get_structure')) and "
+                         "implies(abs(radius / scale) >= 1 and radius > 0, "
+                         "ndi_call(POS)[2]['structure'] is called('_get_structure')) and "
+                         "implies(abs(radius / scale) >= 1, called_args('_get_structure')['r'] == radius_px(radius, scale))",
+        }
+
+
+@contract("acryo.pipe._transform:gaussian_filter", props=["C19"])
+class pipe_gaussian_filter:
+    params = dict(img=T.Arr(3, "real"), scale=T.Real(), sigma=T.Real(lo=0))
+    requires = ["scale > 0"]
+    helpers = _HU
+    lemmas = _LEM_RATIO
+    native_call = "_mod.gaussian_filter(sigma=args['sigma'])(args['img'], args['scale'])"
+    native = {"sigma_in_pixels": "np.allclose(result, __import__('scipy.ndimage').ndimage.gaussian_filter(img, sigma / scale), atol=1e-4)"}
+    ensures = {"sigma_in_pixels": "result is ndi_call('gaussian_filter')[0] and ndi_call('gaussian_filter')[1][0] is img "
+                                  "and ndi_call('gaussian_filter')[1][1] == sigma / scale"}
+
+
+@contract("acryo.pipe._transform:shift", props=["C19"])
+class pipe_shift:
+    params = dict(img=T.Arr(3, "real"), scale=T.Real(), shift=T.Tuple(T.Real(), T.Real(), T.Real()))
+    requires = ["scale > 0"]
+    helpers = _HU
+    native_call = "_mod.shift(args['shift'])(args['img'], args['scale'])"
+    native = {"shift_in_pixels": "True"}
+    ensures = {"shift_in_pixels": "result is ndi_call('shift')[0] and ndi_call('shift')[1][0] is img and "
+                                  "all(ndi_call('shift')[1][1][a] == shift[a] / scale for a in range(3))"}
+
+
+@contract("acryo.pipe._masking:gaussian_smooth", props=["C19"])
+class gaussian_smooth:
+    """soft mask with values in [0, 1]: 1 on the mask (distance 0), exp(-d^2 / (2 (sigma/scale)^2)) at distance d
+    (pixels) from it; sigma enters only as sigma/scale; sigma == 0 returns the mask itself, sigma < 0 is rejected"""
+    params = dict(img=T.Arr(3, "bool"), scale=T.Real(), sigma=T.Real())
+    requires = ["scale > 0"]
+    raises = {"ValueError": "sigma < 0"}
+    helpers = _HU
+    lemmas = _LEM_RATIO
+    native_call = "_mod.gaussian_smooth(args['sigma'])(args['img'], args['scale'])"
+    native = {"values_in_unit_interval": "bool(np.all((result >= 0) & (result <= 1)))",
+              "one_on_the_mask": "bool(np.all(result[img] == 1)) if img.any() else True",
+              "zero_sigma_is_identity": "implies(sigma == 0, bool(np.all(result == img)))",
+              "profile": "True"}
+    ensures = {
+        "values_in_unit_interval": "forall(lambda i, j, k: 0 <= result[i, j, k] and result[i, j, k] <= 1, "
+                                   "(0, img.shape[0]), (0, img.shape[1]), (0, img.shape[2]))",
+        "zero_sigma_is_identity": "implies(sigma == 0, ndi_count() == 0 and forall(lambda i, j, k: "
+                                  "result[i, j, k] == ite(img[i, j, k], 1, 0), (0, img.shape[0]), (0, img.shape[1]), (0, img.shape[2])))",
+        "profile": "ndi_count() == 0 or forall(lambda i, j, k: result[i, j, k] == exp(0 - "
+                   "(ndi_call('distance_transform_edt')[0][i, j, k] * ndi_call('distance_transform_edt')[0][i, j, k]) "
+                   "/ 2 / ((sigma / scale) * (sigma / scale))) and "
+                   "iff(ndi_call('distance_transform_edt')[1][0][i, j, k], not img[i, j, k]), "
+                   "(0, img.shape[0]), (0, img.shape[1]), (0, img.shape[2]))",
+    }
